@@ -22,6 +22,7 @@ type Obl struct {
 	Goal   string
 	Decls  []string // snapshot of declarations
 	Spec   []string // spec files to include
+	Lits   []string // string literals used
 	Expect string   // "unsat" normally; "sat" for cover / canary obligations
 	Note   string
 	BV     bool
@@ -58,6 +59,8 @@ type Eng struct {
 	curFnName string
 	specFiles []string
 	retVars   []types.Object // result variables of the function under analysis
+	curRes    []types.Type   // result types of the body being executed
+	owned     map[types.Object]bool
 	hookDepth int
 	escaped   map[types.Object]bool
 	entry     *State
@@ -658,34 +661,76 @@ func (e *Eng) strLit(s string) string {
 	if n, ok := e.strLits[s]; ok {
 		return n
 	}
-	n := fmt.Sprintf("lit.%d", len(e.strLits))
+	n := litName(s)
 	e.strLits[s] = n
-	e.litList = append(e.litList, n)
-	cm := strings.ReplaceAll(fmt.Sprintf("%q", s), "\n", " ")
-	if len(cm) > 80 {
-		cm = cm[:80] + "..."
-	}
-	e.decls = append(e.decls, fmt.Sprintf("(declare-const %s Str) ; %s", n, cm))
-	e.decls = append(e.decls, fmt.Sprintf("(assert (= (slen %s) %d))", n, len(s)))
-	if len(s) <= 48 {
-		var cs []string
-		for i := 0; i < len(s); i++ {
-			cs = append(cs, fmt.Sprintf("(= (sat %s %d) %d)", n, i, s[i]))
-		}
-		if len(cs) == 1 {
-			e.decls = append(e.decls, "(assert "+cs[0]+")")
-		} else {
-			e.decls = append(e.decls, "(assert (and "+strings.Join(cs, " ")+"))")
-		}
-	}
+	e.litList = append(e.litList, s)
 	return n
 }
 
-func (e *Eng) litDistinct() string {
-	if len(e.litList) == 0 {
-		return ""
+// litName is the canonical SMT symbol of a string literal; spec files use the
+// same symbols, e.g. |"-race"|.
+func litName(s string) string {
+	ok := true
+	for i := 0; i < len(s); i++ {
+		if s[i] < 0x20 || s[i] > 0x7e || s[i] == '|' || s[i] == '\\' || s[i] == '"' {
+			ok = false
+		}
 	}
-	return "(assert (distinct str.empty " + strings.Join(e.litList, " ") + "))"
+	if ok {
+		return "|\"" + s + "\"|"
+	}
+	return fmt.Sprintf("|'%x'|", s)
+}
+
+// litFromName inverts litName.
+func litFromName(n string) (string, bool) {
+	if strings.HasPrefix(n, "|'") && strings.HasSuffix(n, "'|") {
+		var out []byte
+		if _, err := fmt.Sscanf(n[2:len(n)-2], "%x", &out); err == nil {
+			return string(out), true
+		}
+		return "", false
+	}
+	if !strings.HasPrefix(n, "|\"") || !strings.HasSuffix(n, "\"|") {
+		return "", false
+	}
+	body := n[2 : len(n)-2]
+	return body, true
+}
+
+// litDecls declares string literals with their length and characters.
+func litDecls(lits []string) string {
+	var b strings.Builder
+	var names []string
+	seen := map[string]bool{}
+	for _, s := range lits {
+		if s == "" || seen[s] {
+			continue
+		}
+		seen[s] = true
+		n := litName(s)
+		names = append(names, n)
+		cm := strings.ReplaceAll(fmt.Sprintf("%q", s), "\n", " ")
+		if len(cm) > 80 {
+			cm = cm[:80] + "..."
+		}
+		fmt.Fprintf(&b, "(declare-const %s Str) ; %s\n(assert (= (slen %s) %d))\n", n, cm, n, len(s))
+		if len(s) <= 48 {
+			var cs []string
+			for i := 0; i < len(s); i++ {
+				cs = append(cs, fmt.Sprintf("(= (sat %s %d) %d)", n, i, s[i]))
+			}
+			if len(cs) == 1 {
+				b.WriteString("(assert " + cs[0] + ")\n")
+			} else {
+				b.WriteString("(assert (and " + strings.Join(cs, " ") + "))\n")
+			}
+		}
+	}
+	if len(names) > 0 {
+		b.WriteString("(assert (distinct str.empty " + strings.Join(names, " ") + "))\n")
+	}
+	return b.String()
 }
 
 // rowOf returns the backing array of a slice in the current heap.
